@@ -2,7 +2,8 @@
    Print Assumptions; the statements are pinned here so they cannot be quietly weakened.
    All theorems hold for ALL trees (no well-formedness hypothesis is needed: the filters never
    look at keys). *)
-From FB Require Import C10.Model C10.Shapes C10.Theory C10.Theory2 C10.Theory3.
+From FB Require Import C10.Model C10.Shapes C10.Theory C10.Theory2 C10.Theory3 C10.Theory4.
+From FB Require C18.Model.
 
 (* The placeholder constants (generated from the Rust source by translate/c10_consts.py) are the
    documented ones: C_ and net/minecraft/unmapped/C_ for classes, f_ for fields, m_ / <init> /
@@ -352,6 +353,30 @@ Theorem C10_sub_definitions :
      d_info d' = d_info d /\ d_doc d' = d_doc d /\ Sub DSubClass (d_classes d') (d_classes d)).
 Proof. exact sub_definitions. Qed.
 Print Assumptions C10_sub_definitions.
+
+(* ---------------------------------------------------------------------------------------------
+   Round 5 *)
+
+(* C10's own transcription of ObjClassNameSlice::get_inner_class_name IS the function that C18
+   characterises completely and C11 extends / contracts with (coq/C18/Model.v split_inner): the two
+   models of the one Rust function cannot drift apart *)
+Theorem C10_inner_class_name_is_C18 : forall s, inner_class_name s = FB.C18.Model.inner_name s.
+Proof. exact inner_class_name_is_C18. Qed.
+Print Assumptions C10_inner_class_name_is_C18.
+
+Theorem C10_class_placeholder_is_C18 : forall key,
+  class_placeholder key = match FB.C18.Model.split_inner key with Some (_, i) => i | None => key end.
+Proof. exact class_placeholder_is_C18. Qed.
+Print Assumptions C10_class_placeholder_is_C18.
+
+(* a class key whose simple name STARTS with `$` - in the default package or directly behind any package
+   prefix (com/example/$Proxy) - and has no further `$` is not an inner class name: a removed class of
+   that shape is reset to its full key, never to the text after the `$` *)
+Theorem C10_dollar_leading_key_kept : forall pkg rest,
+  ~ In cDOLLAR rest -> (pkg = [] \/ exists q, pkg = q ++ [cSLASH]) ->
+  class_placeholder (pkg ++ cDOLLAR :: rest) = pkg ++ cDOLLAR :: rest.
+Proof. exact dollar_leading_not_split. Qed.
+Print Assumptions C10_dollar_leading_key_kept.
 
 (* non-vacuity: the repository's fixture, evaluated by the model, gives the repository's expected
    output (some entries removed at every level, some kept by comment, child, or name) *)
